@@ -281,6 +281,8 @@ impl CountVectorizer {
 
     pub fn force_tokenizer_function_redefinition(&mut self, tokenizer: Tokenizerfp) {
         self.properties.tokenizer_function = Some(tokenizer);
+        // the function cannot be serialized: a restored copy must ask for it again
+        self.properties.tokenizer_deserialization_guard = true;
     }
 
     pub(crate) fn validate_deserialization(&self) -> Result<()> {
